@@ -25,7 +25,11 @@ def fault_workload(args):
     big = "ab" * 9000
     lines = prog.splitlines()
     ins = [i for i, l in enumerate(lines) if l.startswith(("put ", "batch "))]
-    for i in r.sample(ins, min(2, len(ins))):
+    bl = [i for i in ins if lines[i].startswith("batch ")]
+    pick = r.sample(ins, min(2, len(ins)))
+    if bl and not any(i in bl for i in pick):
+        pick[0] = r.choice(bl)        # always a batch with a record of 8 KiB or more (written with one direct write() call)
+    for i in pick:
         if lines[i].startswith("put "):
             t = lines[i].split()
             lines[i] = "put %s %s %s" % (t[1], t[2], big)
@@ -42,9 +46,15 @@ def fault_workload(args):
         nw = sum(1 for e in evs if e["call"] in ("write", "pwrite", "writev"))
         ns = sum(1 for e in evs if e["call"] in ("fsync", "fdatasync"))
         plan = [("write", n, None) for n in range(1, nw + 1)] + [("sync", n, None) for n in range(1, ns + 1)]
+        # short writes: always on the calls that bypass the 8 KiB BufWriter (a record written with one write() call: a short
+        # count must not be taken for success), plus the first few others
+        wevs = [e for e in evs if e["call"] in ("write", "pwrite", "writev")]
+        big_ns = [i + 1 for i, e in enumerate(wevs) if e["len"].isdigit() and int(e["len"]) >= 8192]
+        must = [("write", n, k) for n in big_ns for k in (1, 100, 5000)]
         plan += [("write", n, k) for n in range(1, nw + 1) for k in (1, 100)][: (10 if tier == "quick" else 10 ** 6)]
-        if tier == "quick" and len(plan) > 60:
-            plan = r.sample(plan, 60)
+        if tier == "quick" and len(plan) > 50:
+            plan = r.sample(plan, 50)
+        plan = must[: (12 if tier == "quick" else 10 ** 6)] + [x for x in plan if x not in must]
         for (cls, n, short) in plan:
             for ending in (("exit 0",) if tier == "quick" and r.random() < 0.7 else ("exit 0", "close")):
                 db = C.fresh(wd)
@@ -92,6 +102,38 @@ def fault_workload(args):
                     break
             if out["problems"]:
                 break
+        # transient short writes (the call returns a short count and nothing fails afterwards, as after an interrupted write):
+        # either the writer completes the record (write_all) and nothing is lost, or it reports an error; a record cut short
+        # behind an acknowledgement shows up after reopen: everything up to the last acknowledged persist (manual journal
+        # persist) / the last acknowledged operation must be there
+        if not out["problems"]:
+            for n in big_ns[: (3 if tier == "quick" else 10 ** 6)]:
+                for k in (100, 5000):
+                    db = C.fresh(wd)
+                    p2 = prog.replace("exit 0\n", "close\n")
+                    o, raw, rc = run_fjv(p2, dbdir=db, env_extra=C.shim_env(db, wd, FAULT_AT=n, FAULT_CLASS="write", FAULT_PATH=".jnl",
+                                                                             FAULT_SHORT=k, FAULT_SHORT_TRANSIENT=1))
+                    out["runs"] += 1
+                    out["kinds"]["write-short-transient"] += 1
+                    pl = p2.splitlines()
+                    if not any("SHORT" in e["ret"] or (e["ret"].isdigit() and e["len"].isdigit() and int(e["ret"]) < int(e["len"]))
+                               for e in C.read_log(wd)):
+                        continue
+                    if any(o[i].startswith("err") for i in o if is_write_line(pl[i - 1].split())):
+                        continue          # reported: the fail-stop part is covered by the runs above
+                    okres, dump, o2 = C.reopen_dump(db, mode)
+                    last = C.acked_ops(p2, o)
+                    allowed, pos = allowed_states(p2, states, last)
+                    strip = lambda d: ";".join(x for x in (d or "").split(";") if not x.endswith("{}") and x != "-")
+                    # a clean close flushes and syncs the journal: every acknowledged operation must be there
+                    if okres != "ok" or strip(dump) not in [strip(a) for a in allowed]:
+                        out["problems"].append(("short-write-accepted", "write", n, k,
+                                                "a write() of the %d-th journal write call returned a short count (%d bytes) and no operation reported "
+                                                "an error, yet after a clean close and reopen acknowledged operations are missing" % (n, k),
+                                                "%s %s" % (okres, dump), allowed))
+                        break
+                if out["problems"]:
+                    break
         out["sample"] = dict(mode=mode, manual_persist=manual, journal_writes=nw, journal_syncs=ns, runs=out["runs"],
                              ops=[l[:60] for l in prog.splitlines()[6:10]])
         return out
